@@ -5,9 +5,12 @@ import PprofVerif.Model.MapRange
 Every `range` over a map in internal/graph, internal/report, internal/driver whose body appends to
 a slice, writes output, concatenates a string, accumulates a float or returns an iteration value —
 as listed by `tools/extract/mapranges.go` — with the reviewer's verdict.  `Props/C08.lean` checks
-by `decide` that every site regenerated from the current source is one of `sites` below, so a new
-map walk, or a sort removed from a reviewed one (its record changes), breaks the obligation until it
-has been reviewed here; a site that disappears (map replaced by a slice) does not.
+by `decide` that every site regenerated from the current source is either SELF-EVIDENT — an `append`
+whose slice reaches a total sort (by value, or one of the comparators proved in Props/C08.lean, possibly
+through callees or — for a helper that returns the slice — in every caller) before any output; such a
+walk is order-irrelevant wherever it sits and whatever it is called — or one of `sites` below.  So a
+new map walk that is not sorted totally, a sort removed, or a custom comparator breaks the obligation
+until it has been reviewed here; a site that disappears, moves into a helper or is renamed does not.
 Reviewed against the pinned tree 1598eac + fixes/C08-less-strict-order.patch (touches none of these
 sites) + fixes/C08-entropy-sum-order.patch (edgeEntropyScore) + fixes/C08-weblist-unprocessed-sorted.patch
 (splitIntoRanges) + fixes/C08-calltree-deterministic.patch (newTree, ComposeDot).
@@ -16,110 +19,50 @@ namespace PV.Spec.MapRangesExpected
 open PV.MapRange
 
 def reviewed : List Reviewed := [
-  -- line 222: range node.LabelTags   then: SORT:internal/graph.SortTags
-  { site := { file := "internal/graph/dotgraph.go", fn := "builder.addNodelets", mapType := "map[string]*internal/graph.Tag", kind := .append, sink := "append", sorted := true, returned := false },
-    verdict := .sortedHere },
-  -- line 225: range node.NumericTags   then: SORT:(*internal/graph.builder).numericNodelets
-  { site := { file := "internal/graph/dotgraph.go", fn := "builder.addNodelets", mapType := "map[string]internal/graph.TagMap", kind := .append, sink := "append (slot keyed by the iteration variable)", sorted := true, returned := false },
-    verdict := .sortedHere },
-  -- line 226: range tm   then: SORT:(*internal/graph.builder).numericNodelets
-  { site := { file := "internal/graph/dotgraph.go", fn := "builder.addNodelets", mapType := "map[string]*internal/graph.Tag", kind := .append, sink := "append (indexed slot)", sorted := true, returned := false },
-    verdict := .sortedHere },
-  -- (graph.newTree: since fixes/C08-calltree-deterministic.patch the node list is collected in creation
-  -- order while the samples are walked; the former `range parentNodeMap` append site is gone and is
-  -- deliberately NOT in this list — Props/C08.lean newTree_collects_without_map_walk)
-  -- ComposeDot: range n.Out   then: SORT:sort.Slice (edge comparator, then node ids); `returned` is the
-  -- translator's over-approximation (the `return` inside the sort closure mentions the slice)
-  { site := { file := "internal/graph/dotgraph.go", fn := "ComposeDot", mapType := "map[*internal/graph.Node]*internal/graph.Edge", kind := .append, sink := "append", sorted := true, returned := true },
-    verdict := .sortedHere },
-  -- line 530: range s.Label   then: SORT:sort.Strings, return, strings.Join
-  { site := { file := "internal/graph/graph.go", fn := "joinLabels", mapType := "map[string][]string", kind := .append, sink := "append", sorted := true, returned := true },
-    verdict := .sortedHere },
-  -- line 574: range nm   then: return
-  { site := { file := "internal/graph/graph.go", fn := "NodeMap.nodes", mapType := "map[internal/graph.NodeInfo]*internal/graph.Node", kind := .append, sink := "append", sorted := false, returned := true },
-    verdict := .sortedByConsumer "CreateNodes/newGraph/newTree hand the list to selectNodesForGraph; report.newTrimmedGraph sorts Graph.Nodes before every printer; printTraces uses only the per-location lists (line order)" },
-  -- delete sites: a map entry is deleted inside a map walk (kind .delete).  Order matters only if the
-  -- decision to delete depends on what earlier iterations deleted — reviewed one by one:
-  -- TrimTree, removed root: the in-edge of EVERY child is deleted, unconditionally
-  { site := { file := "internal/graph/graph.go", fn := "Graph.TrimTree", mapType := "map[*internal/graph.Node]*internal/graph.Edge", kind := .delete, sink := "delete", sorted := false, returned := false },
+  -- line 90: range n.Out (map[*internal/graph.Node]*internal/graph.Edge)   internal/graph.edgeList   then: SORTC:sort.Slice, (internal/graph.edgeList).Less, return
+  { site := { file := "internal/graph/dotgraph.go", fn := "ComposeDot", kind := .append, sink := "append", sorted := true, total := false, returned := true },
+    verdict := .customSort "the edge comparator (edges_order_strict_total) and then the pair of node ids, unique per edge: total for any numbering (edge_order_then_node_ids_total)" },
+  -- line 491: range cur.Out (map[*internal/graph.Node]*internal/graph.Edge)      then: 
+  { site := { file := "internal/graph/graph.go", fn := "Graph.TrimTree", kind := .delete, sink := "delete", sorted := false, total := false, returned := false },
     verdict := .orderIrrelevant "TrimTree: every child of the removed node is re-parented (or orphaned) unconditionally; each iteration touches only its own child's entries" },
-  -- TrimLowFrequencyEdges: the condition reads the edge's own weight only
-  { site := { file := "internal/graph/graph.go", fn := "Graph.TrimLowFrequencyEdges", mapType := "map[*internal/graph.Node]*internal/graph.Edge", kind := .delete, sink := "delete (from the ranged map)", sorted := false, returned := false },
+  -- line 581: range nm (map[internal/graph.NodeInfo]*internal/graph.Node)   internal/graph.Nodes   then: return
+  { site := { file := "internal/graph/graph.go", fn := "NodeMap.nodes", kind := .append, sink := "append", sorted := false, total := false, returned := true },
+    verdict := .sortedByConsumer "CreateNodes/newGraph/newTree hand the list to selectNodesForGraph; report.newTrimmedGraph sorts Graph.Nodes before every printer; printTraces uses only the per-location lists (line order)" },
+  -- line 732: range n.In (map[*internal/graph.Node]*internal/graph.Edge)   []int   then: fmt.Sprintf, return, strings.Join
+  { site := { file := "internal/graph/graph.go", fn := "Graph.String", kind := .append, sink := "append", sorted := false, total := false, returned := true },
+    verdict := .notReportOutput "Graph.String is a debugging aid used by the package tests only" },
+  -- line 809: range n.In (map[*internal/graph.Node]*internal/graph.Edge)      then: 
+  { site := { file := "internal/graph/graph.go", fn := "Graph.TrimLowFrequencyEdges", kind := .delete, sink := "delete (from the ranged map)", sorted := false, total := false, returned := false },
     verdict := .orderIrrelevant "the edge is dropped iff its own |weight| is below the cutoff; no decision reads state changed by another iteration" },
-  { site := { file := "internal/graph/graph.go", fn := "Graph.TrimLowFrequencyEdges", mapType := "map[*internal/graph.Node]*internal/graph.Edge", kind := .delete, sink := "delete", sorted := false, returned := false },
+  -- line 809: range n.In (map[*internal/graph.Node]*internal/graph.Edge)      then: 
+  { site := { file := "internal/graph/graph.go", fn := "Graph.TrimLowFrequencyEdges", kind := .delete, sink := "delete", sorted := false, total := false, returned := false },
     verdict := .orderIrrelevant "the mirror entry src.Out[n] of the same dropped edge" },
-  -- (RemoveRedundantEdges must NOT appear here: whether an in-edge is redundant depends on the edges
-  -- already removed, so it walks n.In.Sort() — a slice — and not the map.)
-  -- line 725: range n.In   then: fmt.Sprintf, return, strings.Join
-  { site := { file := "internal/graph/graph.go", fn := "Graph.String", mapType := "map[*internal/graph.Node]*internal/graph.Edge", kind := .append, sink := "append", sorted := false, returned := true },
-    verdict := .notReportOutput "Graph.String is a debugging aid used by the package tests only" },
-  -- line 728: range n.Out   then: fmt.Sprintf, return, strings.Join
-  { site := { file := "internal/graph/graph.go", fn := "Graph.String", mapType := "map[*internal/graph.Node]*internal/graph.Edge", kind := .append, sink := "append", sorted := false, returned := true },
-    verdict := .notReportOutput "Graph.String is a debugging aid used by the package tests only" },
-  -- line 918: range n.In   then: 
-  { site := { file := "internal/graph/graph.go", fn := "isRedundantEdge", mapType := "map[*internal/graph.Node]*internal/graph.Edge", kind := .append, sink := "append", sorted := false, returned := false },
+  -- line 925: range n.In (map[*internal/graph.Node]*internal/graph.Edge)   internal/graph.Nodes   then: 
+  { site := { file := "internal/graph/graph.go", fn := "isRedundantEdge", kind := .append, sink := "append", sorted := false, total := false, returned := false },
     verdict := .orderIrrelevant "breadth-first reachability query: the boolean result does not depend on the visiting order" },
-  -- range edges (edgeEntropyScore)   then: SORT:sort.Float64s
-  -- Since fixes/C08-entropy-sum-order.patch the -f·log2(f) terms are collected, sorted and only then
-  -- added.  Before it the body accumulated a float64 sum in map order (sink `floatsum:float64`, NOT in
-  -- this list): float addition is not associative, so the last ulp of entropyScore — and with weights
-  -- around 1e14 the integer int64(score*cum), hence the EntropyOrder position of nodes with equal exact
-  -- score and the N-numbering of `-dot` — depended on the map seed (reproduced: strategy entropy-twins).
-  { site := { file := "internal/graph/graph.go", fn := "edgeEntropyScore", mapType := "map[*internal/graph.Node]*internal/graph.Edge", kind := .append, sink := "append", sorted := true, returned := false },
-    verdict := .sortedHere },
-  -- line 1124: range e   then: SORT:sort.Sort, return
-  { site := { file := "internal/graph/graph.go", fn := "EdgeMap.Sort", mapType := "map[*internal/graph.Node]*internal/graph.Edge", kind := .append, sink := "append", sorted := true, returned := true },
-    verdict := .sortedHere },
-  -- line 252: range s.NumLabel   then: 
-  { site := { file := "internal/report/report.go", fn := "Report.newGraph", mapType := "map[string][]int64", kind := .append, sink := "append (slot keyed by the iteration variable)", sorted := false, returned := false },
+  -- line 258: range s.NumLabel (map[string][]int64)   []int64   then: 
+  { site := { file := "internal/report/report.go", fn := "Report.newGraph", kind := .append, sink := "append (slot keyed by the iteration variable)", sorted := false, total := false, returned := false },
     verdict := .orderIrrelevant "each key is appended exactly once to its own slot of a fresh map" },
-  -- line 252: range s.NumLabel   then: 
-  { site := { file := "internal/report/report.go", fn := "Report.newGraph", mapType := "map[string][]int64", kind := .append, sink := "append (slot keyed by the iteration variable)", sorted := false, returned := false },
-    verdict := .orderIrrelevant "each key is appended exactly once to its own slot of a fresh map" },
-  -- line 410: range symNodes   then: SORT:sort.Sort
-  { site := { file := "internal/report/report.go", fn := "PrintAssembly", mapType := "map[*internal/report.objSymbol]internal/graph.Nodes", kind := .append, sink := "append", sorted := true, returned := false },
-    verdict := .sortedHere },
-  -- line 740: range tagMap   then: SORT:internal/graph.SortTags
-  { site := { file := "internal/report/report.go", fn := "printTags", mapType := "map[string]map[string]int64", kind := .append, sink := "append", sorted := true, returned := false },
-    verdict := .sortedHere },
-  -- line 747: range tagMap[key]   then: SORT:internal/graph.SortTags
-  { site := { file := "internal/report/report.go", fn := "printTags", mapType := "map[string]int64", kind := .append, sink := "append", sorted := true, returned := false },
-    verdict := .sortedHere },
-  -- line 885: range sample.Label   then: SORT:sort.Strings, fmt.Fprint, strings.Join
-  { site := { file := "internal/report/report.go", fn := "printTraces", mapType := "map[string][]string", kind := .append, sink := "append", sorted := true, returned := false },
-    verdict := .sortedHere },
-  -- line 893: range sample.NumLabel   then: SORT:sort.Strings, fmt.Fprint, strings.Join
-  { site := { file := "internal/report/report.go", fn := "printTraces", mapType := "map[string][]int64", kind := .append, sink := "append", sorted := true, returned := false },
-    verdict := .sortedHere },
-  -- line 549: range addrMap   then: SORT:sort.Slice, return
-  { site := { file := "internal/report/source.go", fn := "sourcePrinter.splitIntoRanges", mapType := "map[uint64]internal/report.addrInfo", kind := .append, sink := "append", sorted := true, returned := true },
-    verdict := .sortedHere },
-  -- (splitIntoRanges also collects the addresses WITHOUT an object file; since
-  -- fixes/C08-weblist-unprocessed-sorted.patch that slice is sorted as well, so its record equals the
-  -- one above.  Before it the slice was returned in map order and handleUnprocessed appended to the
-  -- per-line instruction lists in that order: `weblist` HTML varied from run to run — the earlier
-  -- verdict "order irrelevant" for that site was WRONG (found by build-C10, reproduced by the
-  -- -weblist jobs of the CLI oracle).  The unsorted record is deliberately NOT in this list.)
-  -- line 629: range sp.files   then: return, SORT:sort.Slice
-  { site := { file := "internal/report/source.go", fn := "sourcePrinter.generate", mapType := "map[string]*internal/report.sourceFile", kind := .append, sink := "append", sorted := true, returned := true },
-    verdict := .sortedHere },
-  -- line 721: range f.lines   then: SORT:sort.Ints
-  { site := { file := "internal/report/source.go", fn := "sourcePrinter.functions", mapType := "map[int][]internal/report.sourceInst", kind := .append, sink := "append", sorted := true, returned := false },
-    verdict := .sortedHere },
-  -- line 233: range bools   then: fmt.Errorf
-  { site := { file := "internal/driver/cli.go", fn := "installConfigFlags", mapType := "map[string]*bool", kind := .append, sink := "append", sorted := false, returned := false },
+  -- line 416: range symNodes (map[*internal/report.objSymbol]internal/graph.Nodes)   []*internal/report.objSymbol   then: SORTC:sort.Sort
+  { site := { file := "internal/report/report.go", fn := "PrintAssembly", kind := .append, sink := "append", sorted := true, total := false, returned := false },
+    verdict := .customSort "by flat sum, then first symbol name, then start address; symbols of one listing have distinct (name, start) — reviewed" },
+  -- line 549: range addrMap (map[uint64]internal/report.addrInfo)   []uint64   then: SORTC:sort.Slice, return
+  { site := { file := "internal/report/source.go", fn := "sourcePrinter.splitIntoRanges", kind := .append, sink := "append", sorted := true, total := false, returned := true },
+    verdict := .customSort "sort.Slice by the address itself: a value sort" },
+  -- line 632: range sp.files (map[string]*internal/report.sourceFile)   []*internal/report.sourceFile   then: return, SORTC:sort.Slice
+  { site := { file := "internal/report/source.go", fn := "sourcePrinter.generate", kind := .append, sink := "append", sorted := true, total := false, returned := true },
+    verdict := .customSort "by flat weight, then by file name (map key, unique) since fixes/C08-weblist-file-order-tiebreak.patch; by file name alone for the full listing" },
+  -- line 233: range bools (map[string]*bool)   []string   then: fmt.Errorf
+  { site := { file := "internal/driver/cli.go", fn := "installConfigFlags", kind := .append, sink := "append", sorted := false, total := false, returned := false },
     verdict := .notReportOutput "text of the usage error `conflicting options set: [...]` for mutually exclusive flags (stderr, no report is produced)" },
-  -- line 270: range pprofCommands   then: SORT:sort.Strings, strings.Join
-  { site := { file := "internal/driver/commands.go", fn := "usage", mapType := "map[string]*internal/driver.command", kind := .append, sink := "append", sorted := true, returned := false },
-    verdict := .sortedHere },
-  -- line 287: range configFieldMap   then: return
-  { site := { file := "internal/driver/config.go", fn := "completeConfig", mapType := "map[string]internal/driver.configField", kind := .append, sink := "append", sorted := false, returned := true },
+  -- line 289: range configFieldMap (map[string]internal/driver.configField)   []string   then: return
+  { site := { file := "internal/driver/config.go", fn := "completeConfig", kind := .append, sink := "append", sorted := false, total := false, returned := true },
     verdict := .orderIrrelevant "interactive completion: the only caller (matchVariableOrCommand) uses the result when the combined list has exactly one element" },
-  -- line 268: range ms   then: return
-  { site := { file := "internal/driver/fetch.go", fn := "combineProfiles", mapType := "map[string][]struct{Source string; Start uint64}", kind := .append, sink := "append (slot keyed by the iteration variable)", sorted := false, returned := true },
+  -- line 268: range ms (map[string][]struct{Source string; Start uint64})   []struct{Source string; Start uint64}   then: return
+  { site := { file := "internal/driver/fetch.go", fn := "combineProfiles", kind := .append, sink := "append (slot keyed by the iteration variable)", sorted := false, total := false, returned := true },
     verdict := .orderIrrelevant "per-key slots; the outer loop runs over the slice of sources in command-line order" },
-  -- line 384: range pprofCommands   then: return
-  { site := { file := "internal/driver/interactive.go", fn := "matchVariableOrCommand", mapType := "map[string]*internal/driver.command", kind := .append, sink := "append", sorted := false, returned := true },
+  -- line 384: range pprofCommands (map[string]*internal/driver.command)   []string   then: return
+  { site := { file := "internal/driver/interactive.go", fn := "matchVariableOrCommand", kind := .append, sink := "append", sorted := false, total := false, returned := true },
     verdict := .orderIrrelevant "the result is used only when there is exactly one match" }
 ]
 
